@@ -5,6 +5,8 @@ V = os.path.dirname(os.path.dirname(os.path.abspath(__file__)))
 def table_seeds():
     out = ["| seeded change (`seeded/<id>/`) | breaks | what it does / needs | caught by |", "|---|---|---|---|"]
     for d in sorted(glob.glob(os.path.join(V, "seeded", "*"))):
+        if not os.path.exists(os.path.join(d, "meta.json")):
+            continue
         m = json.load(open(os.path.join(d, "meta.json")))
         s = (m.get("summary", "") or "").replace("|", "/")
         if len(s) > 230: s = s[:227] + "…"
